@@ -1,5 +1,6 @@
 import Rs1090.Driver.Common
 import Rs1090.Model.Decode.Message
+import Rs1090.Model.Decode.Timed
 namespace Rs1090.Driver.C07
 open Rs1090 Rs1090.Model Rs1090.Driver
 
@@ -7,6 +8,8 @@ open Rs1090 Rs1090.Model Rs1090.Driver
 def handle : List String → Option String
   | ["dec", h] => (parseHex h).map fun bs => Message.showDecoded (Message.tryFrom bs)
   | ["dec"] => some (Message.showDecoded (Message.tryFrom []))
+  /- the timed record of one reception at t = 1.5 s with no metadata -/
+  | ["timed", h] => (parseHex h).map fun bs => Message.showDecoded (Timed.record (jrat 3 2) bs)
   | _ => none
 
 end Rs1090.Driver.C07
